@@ -25,6 +25,7 @@ import (
 )
 
 var mac = net.HardwareAddr{2, 0, 0, 0, 0, 7}
+var mac2 = net.HardwareAddr{2, 0, 0, 0, 0, 0x2a} // configured with WithHWAddr on top of the interface's address
 var sidIP = map[string]net.IP{"A": net.IPv4(10, 0, 0, 1).To4(), "B": net.IPv4(10, 0, 0, 2).To4()}
 
 type reply struct {
@@ -134,7 +135,7 @@ func (c *rconn) build(r reply, req []byte, n int) []byte {
 			case 3:
 				p.ClientHWAddr = net.HardwareAddr{} // no hardware address at all (hlen 0)
 			case 4:
-				p.ClientHWAddr = append(append(net.HardwareAddr{}, mac...), 0, 0) // the client's address with two more bytes
+				p.ClientHWAddr = append(append(net.HardwareAddr{}, q.ClientHWAddr...), 0, 0) // the client's address with two more bytes
 			default:
 				if n%12 == 5 {
 					return []byte{} // a zero-length datagram
@@ -263,13 +264,32 @@ func logChoice(script [][]reply) int {
 	return h % 4
 }
 
+// cfgChoice derives the client's configuration options from the script (a replay makes the same choice): the
+// exchange rules hold whatever address the client is told to send to and whatever hardware address it is given
+func cfgChoice(script [][]reply) int { return logChoice(append(script, []reply{{T: "cfg"}})) + 4*logChoice(append(script, []reply{{T: "c"}, {T: "f"}})) }
+
 func run4(c struct {
 	Tries  int       `json:"tries"`
 	Script [][]reply `json:"script"`
 }, extra bool) map[string]any {
 	conn := &rconn{proto: 4, script: c.Script, wake: make(chan struct{}, 1), sent: map[int][]byte{}, epoch: time.Now()}
-	opts4 := []nclient4.ClientOpt{nclient4.WithRetry(c.Tries), nclient4.WithTimeout(time.Second),
-		nclient4.WithServerAddr(&net.UDPAddr{IP: net.IPv4bcast, Port: 67})}
+	opts4 := []nclient4.ClientOpt{nclient4.WithRetry(c.Tries), nclient4.WithTimeout(time.Second)}
+	ch := cfgChoice(c.Script)
+	srv, hw := "255.255.255.255:67", mac
+	switch ch % 4 { // where the client is told to send: the default, the broadcast address, a relay / helper, the server itself
+	case 1:
+		opts4 = append(opts4, nclient4.WithServerAddr(&net.UDPAddr{IP: net.IPv4bcast, Port: 67}))
+	case 2:
+		opts4 = append(opts4, nclient4.WithServerAddr(&net.UDPAddr{IP: net.IPv4(10, 0, 0, 254), Port: 67}))
+		srv = "10.0.0.254:67"
+	case 3:
+		opts4 = append(opts4, nclient4.WithServerAddr(&net.UDPAddr{IP: net.IPv4(10, 0, 0, 2), Port: 6767}))
+		srv = "10.0.0.2:6767"
+	}
+	if ch/4%2 == 1 {
+		opts4 = append(opts4, nclient4.WithHWAddr(mac2))
+		hw = mac2
+	}
 	switch logChoice(c.Script) { // any logging configuration
 	case 1:
 		opts4 = append(opts4, nclient4.WithSummaryLogger())
@@ -306,7 +326,7 @@ func run4(c struct {
 			res = result{Kind: "err", Err: err.Error()}
 		}
 	}()
-	out := map[string]any{"proto": 4, "tries": c.Tries, "res": res}
+	out := map[string]any{"proto": 4, "tries": c.Tries, "res": res, "cfg": map[string]any{"srv": srv, "mac": bs(hw)}}
 	txs := []any{}
 	for _, t := range conn.txs {
 		e := map[string]any{"dest": t.dest, "at": int(t.t / time.Second), "len": len(t.b)}
@@ -379,6 +399,18 @@ func run6(c struct {
 }, rapid bool) map[string]any {
 	conn := &rconn{proto: 6, script: c.Script, wake: make(chan struct{}, 1), sent: map[int][]byte{}, epoch: time.Now()}
 	opts6 := []nclient6.ClientOpt{nclient6.WithRetry(c.Tries), nclient6.WithTimeout(time.Second)}
+	srv := "[ff02::1:2]:547"
+	switch cfgChoice(c.Script) % 4 { // where the client is told to send
+	case 1:
+		a := &net.UDPAddr{IP: net.ParseIP("ff02::1:2"), Port: 547, Zone: "eth3"}
+		opts6, srv = append(opts6, nclient6.WithBroadcastAddr(a)), a.String()
+	case 2:
+		a := &net.UDPAddr{IP: net.ParseIP("fe80::1"), Port: 547, Zone: "eth3"}
+		opts6, srv = append(opts6, nclient6.WithBroadcastAddr(a)), a.String()
+	case 3:
+		a := &net.UDPAddr{IP: net.ParseIP("2001:db8::1"), Port: 5547}
+		opts6, srv = append(opts6, nclient6.WithBroadcastAddr(a)), a.String()
+	}
 	switch logChoice(c.Script) { // any logging configuration
 	case 1:
 		opts6 = append(opts6, nclient6.WithSummaryLogger())
@@ -418,7 +450,7 @@ func run6(c struct {
 			res = result{Kind: "err", Err: err.Error()}
 		}
 	}()
-	out := map[string]any{"proto": 6, "tries": c.Tries, "rapid": rapid, "res": res}
+	out := map[string]any{"proto": 6, "tries": c.Tries, "rapid": rapid, "res": res, "cfg": map[string]any{"srv": srv}}
 	txs := []any{}
 	for _, t := range conn.txs {
 		e := map[string]any{"dest": t.dest, "at": int(t.t / time.Second), "len": len(t.b)}
